@@ -314,8 +314,20 @@ let cmd_dlex file =
       Buffer.add_string buf "| ") (words line);
     print_endline (Buffer.contents buf))
 
+(* fscan: hex source per line -> front-end token stream "type:lithex:off:line:col ... E<errors>" *)
+let cmd_fscan () =
+  iter_lines (fun line ->
+    let src = hex_decode (String.trim line) in
+    let (ts, e) = fscan_all src in
+    let buf = Buffer.create 256 in
+    List.iter (fun t -> Buffer.add_string buf (Printf.sprintf "%d:%s:%d:%d:%d " (int_of_z t.f_type) (hex_encode t.f_lit)
+      (int_of_z t.f_off) (int_of_z t.f_line) (int_of_z t.f_col))) ts;
+    Buffer.add_string buf (Printf.sprintf "E%d" (int_of_z e));
+    print_endline (Buffer.contents buf))
+
 let () =
   match Array.to_list Sys.argv with
+  | _ :: "fscan" :: _ -> cmd_fscan ()
   | _ :: "bisim" :: args -> cmd_bisim args
   | _ :: "dlex" :: file :: _ -> cmd_dlex file
   | _ :: "tokmap" :: _ -> cmd_tokmap ()
